@@ -11,3 +11,13 @@ for name, (q, contract, sel) in goldenreg.REGISTRY.items():
         continue
     n = golden.freeze(fx, name, q, contract, **sel)
     print("%-32s %3d events" % (name, n))
+
+from ctpgsa import deporder
+for name, (q, npar) in goldenreg.DEP.items():
+    if only and name not in only and ("dep_" + name) not in only:
+        continue
+    try:
+        n = deporder.freeze(fx, name, q, npar)
+        print("dep_%-28s %3d ordered dependences" % (name, n))
+    except Exception as e:
+        print("dep_%-28s FAILED: %s" % (name, e))
